@@ -287,6 +287,7 @@ func (vc *VC) freshResults(st *State, call *ast.CallExpr, hint string) []Term {
 	for _, t := range vc.resultTypes(call) {
 		v := vc.fresh("r$"+hint, sortOfType(t))
 		st.assume(vc.rangeFact(t, v))
+		vc.assumeAllocated(st, v, t)
 		out = append(out, v)
 	}
 	return out
@@ -655,9 +656,34 @@ func (vc *VC) contractCall(st *State, call *ast.CallExpr, c *FuncContract, fn *t
 					}
 				}
 			}
-			crs := vc.inlineBody(st, fl.Type, fl.Body, nil, Term{}, cargs, vc.cur().info, vc.cur().pkg, "callback of "+c.Key, fl)
-			for i, r := range crs {
-				names[fmt.Sprintf("cbresult%d", i)] = Val{r, nil}
+			if c.OnceGuard != "" {
+				// sync.Once-style: the literal runs iff the guard ghost is false for the receiver;
+				// afterwards the guard is true
+				g := vc.heapGet(st, "ghost$"+c.OnceGuard, arrSort(SInt, SBool))
+				var key Term
+				if recv != nil {
+					key = *recv
+				} else {
+					key = IntLit(0)
+				}
+				done := Select(g, key)
+				s1 := st.clone()
+				s1.assume(Not(done))
+				vc.inlineBody(s1, fl.Type, fl.Body, nil, Term{}, cargs, vc.cur().info, vc.cur().pkg, "once-callback of "+c.Key, fl)
+				s2 := st.clone()
+				s2.assume(done)
+				if m := vc.merge([]*State{s1, s2}); m != nil {
+					*st = *m
+				} else {
+					st.pc = TFalse
+				}
+				g2 := vc.heapGet(st, "ghost$"+c.OnceGuard, arrSort(SInt, SBool))
+				vc.heapSet(st, "ghost$"+c.OnceGuard, vc.nameTerm("once", Store(g2, key, TTrue)))
+			} else {
+				crs := vc.inlineBody(st, fl.Type, fl.Body, nil, Term{}, cargs, vc.cur().info, vc.cur().pkg, "callback of "+c.Key, fl)
+				for i, r := range crs {
+					names[fmt.Sprintf("cbresult%d", i)] = Val{r, nil}
+				}
 			}
 			pre = st.clone()
 		}
@@ -702,6 +728,7 @@ func (vc *VC) contractCall(st *State, call *ast.CallExpr, c *FuncContract, fn *t
 		t := sig.Results().At(i).Type()
 		v := vc.fresh("r$"+fn.Name(), sortOfType(t))
 		st.assume(vc.rangeFact(t, v))
+		vc.assumeAllocated(st, v, t)
 		rs = append(rs, v)
 	}
 	bindResultNames(names, sig, rs)
@@ -1258,13 +1285,32 @@ func (vc *VC) callEffects(call *ast.CallExpr, ef *effects) {
 			}
 		}
 		if c.Inline {
-			if fi := vc.prog.Funcs[key]; fi != nil {
-				// conservative
-				ef.heapAll = true
+			if fi := vc.prog.Funcs[key]; fi != nil && len(vc.frames) < 10 {
+				// the callee is executed inline: its effects are those of its body
+				fr := &callFrame{info: fi.Pkg.TypesInfo, pkg: fi.Pkg.Types, fnName: key, boxed: map[types.Object]bool{}, closures: map[types.Object]*ast.FuncLit{}}
+				vc.frames = append(vc.frames, fr)
+				sub := vc.effectsOf(fi.Decl.Body)
+				vc.frames = vc.frames[:len(vc.frames)-1]
+				for k := range sub.heap {
+					ef.untargeted(k)
+				}
+				for k := range sub.allocd {
+					if ef.allocd == nil {
+						ef.allocd = map[string]bool{}
+					}
+					ef.allocd[k] = true
+				}
+				for k := range sub.ghosts {
+					ef.ghosts[k] = true
+				}
 				for g := range vc.prog.GhostMods[key] {
 					ef.ghosts[g] = true
 				}
-				_ = fi
+				ef.heapAll = ef.heapAll || sub.heapAll
+				ef.heapExt = ef.heapExt || sub.heapExt
+				ef.allocs = ef.allocs || sub.allocs
+				ef.calls = ef.calls || sub.calls
+				ef.patterns = append(ef.patterns, sub.patterns...)
 				return
 			}
 		}
